@@ -335,7 +335,9 @@ struct Gen {
 		std::set<int> l = a.labels; l.insert(b.labels.begin(), b.labels.end());
 		meet({ &a.labels, &b.labels });
 		UInt r;
-		switch (rng.below(6)) {
+		// (post-processing folds AND/OR with a constant operand bitwise, which can cut the other operand off)
+		bool hasConst = a.labels.empty() || b.labels.empty();
+		switch (hasConst ? (rng.chance(1, 2) ? 0 : 4) : rng.below(6)) {
 			case 0: r = a.sig + b.sig; break;
 			case 1: r = a.sig - b.sig; break;
 			case 2: r = a.sig & b.sig; break;
